@@ -2,7 +2,7 @@ use crate::{
     parser::{HasRegisterSets, InstructionProperties, Register},
     passes::{CfgError, GenerationPass},
 };
-use std::collections::HashSet;
+use std::{collections::HashSet, rc::Rc};
 
 use super::HasGenKillInfo;
 
@@ -13,6 +13,17 @@ impl GenerationPass for LivenessPass {
         let mut changed = true;
         #[allow(clippy::mutable_key_type)]
         let mut visited = HashSet::new();
+
+        // The exit nodes of all functions. When functions share code, the
+        // return that is the exit of one function may have been turned into a
+        // jump to the exit of another one; it still collects the registers
+        // that are live after the calls to its function.
+        let exits = cfg
+            .functions()
+            .values()
+            .map(|func| Rc::clone(&func.exit()))
+            .collect::<Vec<_>>();
+
         while changed {
             changed = false;
             for node in cfg.iter().rev() {
@@ -83,9 +94,13 @@ impl GenerationPass for LivenessPass {
                         | args;
                     changed |= node.set_live_in(live_in);
                     changed |= node.set_u_def(u_def);
-                } else if node.is_return() {
-                    // live_in[n] = live_in[n] U gen[n]
-                    let live_in = node.live_in() | node.gen_reg();
+                } else if node.is_return() || exits.iter().any(|exit| Rc::ptr_eq(exit, &node)) {
+                    // live_in[n] = live_in[n] U gen[n] U (live_out[n] - kill[n])
+                    // The existing live_in is kept because call sites add to
+                    // it; overwriting it here would undo that in every sweep
+                    // and the analysis would never settle.
+                    let live_in =
+                        node.live_in() | node.gen_reg() | (node.live_out() - node.kill_reg());
                     changed |= node.set_live_in(live_in);
 
                     // u_def[n] = AND u_def[s] for all s in prev[n]
